@@ -94,7 +94,7 @@ func (f *fakeS3) GetObjectWithContext(ctx aws.Context, in *s3.GetObjectInput, _ 
 	f.asked = append(f.asked, f.key(in.Bucket, in.Key))
 	if f.failIn > 0 {
 		f.failIn--
-		return nil, errInjected
+		return nil, injectedErr(f.key(in.Bucket, in.Key))
 	}
 	b, ok := f.obj[f.key(in.Bucket, in.Key)]
 	if !ok {
@@ -149,7 +149,7 @@ func (f *fakeS3) PutObjectWithContext(ctx aws.Context, in *s3.PutObjectInput, _ 
 	f.asked = append(f.asked, f.key(in.Bucket, in.Key))
 	if f.failIn > 0 {
 		f.failIn--
-		return nil, errInjected
+		return nil, injectedErr(f.key(in.Bucket, in.Key))
 	}
 	if f.failTransient > 0 {
 		f.failTransient--
